@@ -117,4 +117,7 @@ MUTANTS = [
     M('parser:marker:complete-wrong-slot', 'parser', ['C01', 'C02'], 'Marker::complete', 'let idx = self.pos as usize;', 'let idx = (self.pos as usize) + 1;'),
     M('parser:marker:abandon-always-pops', 'parser', ['C01', 'C02'], 'Marker::abandon', 'if idx == p.events.len() - 1 {', 'if idx <= p.events.len() - 1 {'),
     M('parser:marker:precede-wrong-distance', 'parser', ['C01'], 'CompletedMarker::precede', '*forward_parent = Some(new_pos.pos - self.pos);', '*forward_parent = Some(self.pos - new_pos.pos);'),
+    # ---- LEX extents
+    M('lex:line_comment:stops-at-space', 'lex', ['C15', 'C14'], "Cursor<'_>::line_comment", "{ c != '\\n' });", "{ c != '\\n' && c != ' ' });"),
+    M('lex:eat_identifier:start-test-inverted', 'lex', ['C15'], "Cursor<'_>::eat_identifier", 'if !is_id_start(self.first()) {', 'if is_id_start(self.first()) {'),
 ]
